@@ -348,6 +348,7 @@ void FilePiece::ReadShift() {
       position_end_ = position_ + valid_length;
     } else {
       std::size_t moving = position_end_ - position_;
+      mapped_offset_ += position_ - data_.begin();
       memmove(data_.get(), position_, moving);
       position_ = data_.begin();
       position_end_ = position_ + moving;
